@@ -34,7 +34,7 @@ type HeaderSpec struct {
 	Size    int    `json:"size"` // 12 | 14
 	Proto   byte   `json:"proto"`
 	Profile uint16 `json:"profile"`
-	HCRC    string `json:"hcrc,omitempty"` // ok | zero | bad | val (size 14 only)
+	HCRC    string `json:"hcrc,omitempty"`     // ok | zero | bad | val (size 14 only)
 	HCRCVal uint16 `json:"hcrc_val,omitempty"` // stored CRC when hcrc == "val"
 	DType   string `json:"dtype,omitempty"`    // data type bytes (default ".FIT")
 }
